@@ -45,6 +45,7 @@ class Summary:
     refs: dict = dataclasses.field(default_factory=dict)          # relative stack -> reason (any Ref, informational)
     violations: dict = dataclasses.field(default_factory=dict)    # (mut stack, ref stack) -> reason
     done: bool = False
+    muts_any: bool = False                                        # some mutation of any ownership happened (invalidates attribute facts)
 
 
 class Frame:
@@ -264,10 +265,12 @@ class Interp:
 
     # ------------------------------------------------------------------ events
     def mut(self, kind: str, own: str, detail: str, st: State, fr: Frame) -> State:
+        fr.summary.muts_any = True
         if own != B:
-            return st
+            return _drop_facts(st)
         site = ((fr.fn_name, fr.stmt, fr.serial),)
         fr.summary.muts.setdefault(site, (kind, detail))
+        st = _drop_facts(st)
         if st.fx is None:
             return st.with_fx(site)
         return st
@@ -792,6 +795,13 @@ class _ExprMixin:
                     dataclasses.replace(v, nullable=False), st, fr) is True else v)
                 return st.with_env(e.id, nv)
             return st
+        if isinstance(e, ast.Attribute) and _pure_chain(e):
+            # remember the outcome of a test on a plain attribute chain until the next mutation (`if x.claimed: ... if x.claimed:`)
+            key = '@' + norm(e)
+            known = st.env.get(key)
+            if isinstance(known, Plain) and known.known and bool(known.const) != truth:
+                return None
+            return st.with_env(key, Plain('derived', truth, True, 'bool'))
         if isinstance(e, ast.Compare) and len(e.ops) == 1:
             op = e.ops[0]
             l, r = e.left, e.comparators[0]
@@ -901,6 +911,9 @@ class _ExprMixin:
         return [(self.lookup_name(e.id, st, fr), st)]
 
     def _e_Attribute(self: Any, e: ast.Attribute, st: State, fr: Frame) -> list:
+        fact = st.env.get('@' + norm(e)) if _pure_chain(e) else None
+        if fact is not None:
+            return [(fact, st)]
         out = []
         for v, s in self.eval(e.value, st, fr):
             if isinstance(v, Obj) and v.nullable:
@@ -1197,6 +1210,18 @@ class _ExprMixin:
         return out
 
 
+def _pure_chain(e: ast.AST) -> bool:
+    while isinstance(e, ast.Attribute):
+        e = e.value
+    return isinstance(e, ast.Name)
+
+
+def _drop_facts(st: State) -> State:
+    if any(k.startswith('@') for k in st.env):
+        return State({k: v for k, v in st.env.items() if not k.startswith('@')}, st.fx)
+    return st
+
+
 def _ext_type_names(e: ast.AST) -> list[str]:
     """builtin / external type names inside an isinstance class expression"""
     out = []
@@ -1371,6 +1396,8 @@ class _CallMixin:
 
     def _apply_summary(self: Any, summ: Summary, st: State, fr: Frame) -> list:
         # effects of the callee as seen from the caller's statement
+        if summ.muts_any:
+            fr.summary.muts_any = True
         for stack, info in summ.muts.items():
             if len(fr.summary.muts) < 400:
                 fr.summary.muts.setdefault(_prefix(fr, stack), info)
@@ -1399,7 +1426,7 @@ class _CallMixin:
                 seen.add(k)
             except TypeError:
                 pass
-            out.append((v, State(st.env, nfx)))
+            out.append((v, State(st.env, nfx) if not summ.muts_any else _drop_facts(State(st.env, nfx))))
         return out
 
     def _run_function(self: Any, f: FuncInfo, args: list, kwargs: dict, dirty: bool, summ: Summary) -> None:
